@@ -50,6 +50,14 @@ def cases(tier):
         out.append(("wf", ["X", [0.0] * D]))  # all-zero waveforms of every class (a flat zero detuning, a waveform times 0)
         out.append(("wf", ["+", ["C", D, 0.0], ["R", max(1, D // 2), 0.0, 0.0]]))
         out.append(("wf", ["+", ["C", D, 1.0], ["R", max(1, D // 2), 0.0, 2.0], ["X", [3.0] * min(D, 3)]]))
+    # ramps whose last sample is start + slope * (duration - 1) in floating point: every duration 2..80 x end values that are not dyadic,
+    # rising and falling, from 0 and from an offset
+    for D in range(2, 81 if tier == "quick" else 400):
+        for v in (0.1, 0.3, math.pi, 12.34, 1e-3, 2 * math.pi / 3):
+            out.append(("wf", ["R", D, 0.0, v]))
+            out.append(("wf", ["R", D, v, 0.0]))
+            out.append(("wf", ["R", D, -v, 0.7]))
+            out.append(("wf", ["R", D, 0.7, -v]))
     # large values of both signs whose integral cancels (equality / algebra must not go through derived quantities)
     out.append(("wf", ["R", 500, -60.0, 60.0]))
     out.append(("wf", ["X", [1000.0, -1000.0]]))
@@ -133,6 +141,14 @@ def check_wf(spec):
         exp = np.array([a]) if D == 1 else a + (b - a) * np.arange(D) / (D - 1)
         if not close(s, exp):
             out.append((f"C16:ramp-values:{tag}", f"{spec}: {s[:3]}..{s[-1]} vs {exp[:3]}..{exp[-1]}"))
+        # a ramp goes FROM start TO stop: it starts exactly at `start` and no rounding takes a sample outside [start, stop] (a ramp up to a
+        # channel's limit stays within the limit, a ramp down to 0 never turns negative)
+        lo, hi = (a, b) if a <= b else (b, a)
+        if s[0] != a:
+            out.append((f"C16:ramp-first-sample:{tag}", f"{spec}: first sample {s[0]!r}, start {a!r}"))
+        if float(np.min(s)) < lo or float(np.max(s)) > hi:
+            i = int(np.argmax(np.maximum(s - hi, lo - s)))
+            out.append((f"C16:ramp-leaves-its-range:{'rising' if a <= b else 'falling'}", f"{spec}: sample {i} is {s[i]!r}, outside [{lo!r}, {hi!r}]"))
     elif kind == "X":
         if not close(s, spec[1]):
             out.append((f"C16:custom-values:{tag}", f"{spec}"))
